@@ -18,7 +18,8 @@ RULE = ("Decimals: all sign x <=4 significant digits x exponent -8..8 (thorough;
         " ; ISO 8601 forms outside XSD (basic, week, ordinal, reduced) must raise; an accepted 24:00:00 must be the next day's start; attributes typed by the element they stand on (same-named elements in one reply)"
         ' ; strings with blanks at their ends'
         ' ; restrictions of restrictions'
-        ' ; items of encoded arrays')
+        ' ; items of encoded arrays'
+        ' ; strings with tabs and line feeds')
 ASSUMPTIONS = ["Python int()/str()/float()/repr()/Decimal()/datetime are runtime (trusted, covered by correspondence)"]
 PARTIAL = [
     {"theorem": "float round trip", "missing": "Python float repr/parse is runtime; covered by correspondence only"},
